@@ -423,6 +423,18 @@ func runCheck(id, tier string) int {
 	start := time.Now()
 	defer doCleanup()
 
+	// Development knob (sensitivity experiments against VERIF_ALT_REPO only, where the evidence goes to
+	// build/alt-evidence): run a single phase of the check.
+	if only := os.Getenv("VERIF_ONLY_PHASE"); only != "" && altRepo() {
+		var keep []phase
+		for _, ph := range cfg.Phases {
+			if ph.Name == only {
+				keep = append(keep, ph)
+			}
+		}
+		cfg.Phases = keep
+	}
+
 	bins := map[string]string{}
 	for _, ph := range cfg.Phases {
 		if ph.ThoroughOnly && tier != "thorough" {
